@@ -233,13 +233,15 @@ Fixpoint perms {A} (l : list A) : list (list A) :=
   | x :: r => flat_map (inserts x) (perms r)
   end.
 (* one batch element: operation, expected [found; flag; purge] *)
-Definition res3 (x : out) : list Z := [oz (ofound x); bz (oflag x); oz (opurge x)].
+(* whether a concurrent Add was accepted is not observable atomically: reported as -2 by the harness *)
+Definition res3 (o : op) (x : out) : list Z :=
+  [oz (ofound x); match o with Add _ _ _ => -2 | _ => bz (oflag x) end; oz (opurge x)].
 Fixpoint seq_ok (keep : bool) (s : st) (l : list (op * list Z)) : option (st * list (Z * Z * Z)) :=
   match l with
   | [] => Some (s, [])
   | (o, want) :: r =>
       let (s', x) := step keep s o in
-      if zs_eqb (res3 x) want
+      if zs_eqb (res3 o x) want
       then match seq_ok keep s' r with Some (s'', ev) => Some (s'', oevict x ++ ev) | None => None end
       else None
   end.
